@@ -2,7 +2,7 @@
 import re
 
 from factlib import trace, resolve_const
-from common import find_aggs, enum_arm_regions, exclusive_regions, calls_in, const_eval, constructs_variant
+from common import ps_reachable, find_aggs, enum_arm_regions, exclusive_regions, calls_in, const_eval, constructs_variant
 
 WS = "async_graphql::http::websocket"
 # close codes a graphql-transport-ws server may send (protocol table) + IANA-registered codes
@@ -103,12 +103,26 @@ def run(F, R):
                     "(contains_key / entry / get) — graphql-transport-ws requires close code 4409 for a duplicate id")
     ins = [c for c in pn.calls_to(r"hash::map::\{impl#\d+\}::insert$") if any(k == "field" and ".streams" in x for k, x in trace(pn, c.args[0])[0])]
     R.floor("R25.3", "streams.insert sites", len(ins), 1)
+    # the legacy subscriptions-transport-ws protocol defines re-use of an id as "replace"; only graphql-transport-ws demands 4409.
+    legacy_arms = []
+    for (sbb, place, adt, arms, other, vmap) in pn.enum_switches(WS + r"::Protocols$"):
+        if "SubscriptionsTransportWS" in arms and arms["SubscriptionsTransportWS"] is not None:
+            legacy_arms.append(arms["SubscriptionsTransportWS"])
+        elif "GraphQLWS" in arms and other is not None and not pn.is_unreachable_block(other):
+            legacy_arms.append(other)
     for c in ins:
-        tests = [t for t in pn.calls() if t.callee and re.search(r"hash::map::\{impl#\d+\}::(contains_key|entry|get|get_mut)$", t.callee) and pn.dominates(t.bb, c.bb)
+        tests = [t for t in pn.calls() if t.callee and re.search(r"hash::map::\{impl#\d+\}::(contains_key|entry|get|get_mut)$", t.callee)
                  and any(k == "field" and ".streams" in x for k, x in trace(pn, t.args[0])[0])]
-        R.check(bool(tests), "R25.3", "streams.insert:no-occupancy-test", c.where(), "occupancy tested",
+        dominated = any(pn.dominates(t.bb, c.bb) for t in tests)
+        # or: every path to the insert that avoids the occupancy tests runs under the legacy protocol
+        untested = c.bb in ps_reachable(pn, 0, avoid=[t.bb for t in tests] + legacy_arms)
+        R.check(bool(tests) and (dominated or not untested), "R25.3", "streams.insert:no-occupancy-test", c.where(),
+                "occupancy tested on every graphql-transport-ws path (%d tests)" % len(tests),
                 "a subscribe/start with an id that is already live replaces the running stream without any check: the first operation is dropped silently "
                 "and never completes")
+        # the occupied branch must close with 4409
+        codes = {const_eval(pn, r[5][0]) for (bb, r, line) in find_aggs(pn, WS + r"::WsMessage$") if r[3] == "Close"}
+        R.check(4409 in codes, "R25.3", "duplicate-id:closes-4409", c.where(), "close code 4409 is emitted", "no close with code 4409 (subscriber already exists) exists")
 
     R.rule("R25.4", "close-code table: every constant close code emitted is one the graphql-transport-ws protocol (or the IANA registry) defines")
     n = 0
